@@ -722,11 +722,13 @@ def run(tier, seed, driver):
     part_end_to_end(res, rng, tier)
     res.exhaustive = False
     res.rule = ("framing: byte streams built from valid frames, garbage, CRLF/LF, empty lines, multi-byte and "
-                "invalid UTF-8, NUL, unterminated tails; every single cut (streams <= 40 bytes), every pair of "
+                "invalid UTF-8, NUL, unterminated tails, unterminated noise of 101 … 8193 (thorough: 200001) bytes before "
+                "a frame with read sizes 64 … 65536; every single cut (streams <= 40 bytes), every pair of "
                 "cuts (<= 20/28 bytes), byte-by-byte, recv(120), random multi-cuts; three real protocol "
                 "classes; the real TCPTransport.run loop on a socketpair. flavours: generated histories "
                 "(versions 1.4-2.2, smart-sleep wake-ups, unknown nodes, OTA) under three pump schedules each "
-                "(random interleaving, everything queued before the pump runs, drained between lines) on the "
+                "(random interleaving, everything queued before the pump runs, drained between lines), plus backlogs of "
+                "130 … 520 (thorough: 2300) lines queued before the threaded pump runs, on the "
                 "real BaseSyncGateway via single iterations of the real _poll_queue loop vs the real "
                 "BaseAsyncGateway; end-to-end: bytes -> state and transport log, chunked vs whole. "
                 "non-trivial = at least one line delivered / one command sent")
